@@ -1395,7 +1395,7 @@ func (c *cluster) markResizeInstructionComplete(complete *ResizeInstructionCompl
 
 	// Abort the job if an error exists in the complete object.
 	if complete.Error != "" {
-		j.result <- resizeJobStateAborted
+		j.sendResult(resizeJobStateAborted)
 		return errors.New(complete.Error)
 	}
 
@@ -1410,7 +1410,7 @@ func (c *cluster) markResizeInstructionComplete(complete *ResizeInstructionCompl
 	j.IDs[complete.Node.ID] = true
 
 	if !j.nodesArePending() {
-		j.result <- resizeJobStateDone
+		j.sendResult(resizeJobStateDone)
 	}
 
 	return nil
@@ -1466,7 +1466,7 @@ func newResizeJob(existingNodes []*Node, node *Node, action string) *resizeJob {
 		ID:     rand.Int63(),
 		IDs:    ids,
 		action: action,
-		result: make(chan string),
+		result: make(chan string, 1),
 		Logger: logger.NopLogger,
 	}
 }
@@ -1488,17 +1488,28 @@ func (j *resizeJob) run() error {
 	// Job can be considered done in the case where it doesn't require any action.
 	if !j.nodesArePending() {
 		j.Logger.Printf("resizeJob contains no pending tasks; mark as done")
-		j.result <- resizeJobStateDone
+		j.sendResult(resizeJobStateDone)
 		return nil
 	}
 
 	j.Logger.Printf("distribute tasks for resizeJob")
 	err := j.distributeResizeInstructions()
 	if err != nil {
-		j.result <- resizeJobStateAborted
+		j.sendResult(resizeJobStateAborted)
 		return errors.Wrap(err, "distributing instructions")
 	}
 	return nil
+}
+
+// sendResult hands the outcome of the job to handleNodeAction without ever
+// blocking the sender. handleNodeAction receives exactly one result per job:
+// the first one is kept in the channel's buffer, later ones (duplicate, late
+// or failed completion messages, a completion racing with run) are dropped.
+func (j *resizeJob) sendResult(state string) {
+	select {
+	case j.result <- state:
+	default:
+	}
 }
 
 // isComplete return true if the job is any one of several completion states.
